@@ -25,7 +25,7 @@ func TestC12(t *testing.T) {
 	mon.Main(t, mon.Check{
 		ID:    "C12",
 		Level: "exploration",
-		Rule:  "each case draws a GBN scenario (random N, timeouts, keepalive, latency, mild faults, bidirectional traffic with idle gaps), runs it once to collect the virtual instants of its wire events (if that run's bubble freezes, the scenario is repeated on the real clock with a Close by both ends after the fault phase), then re-runs it K times injecting Close at one of those instants (-1ns/0/+1ns) or at a random instant, by client / server / both at the same instant / twice concurrently, with the transport working / blackholed / its send blocking until cancellation; plus handshake-phase cancellation cases, a real-time slice with a transport whose send blocks, a real-time slice that closes a mailbox-level connection whose transport write is blocked by backpressure (relay mailboxes of four messages, peer dead; bound ping+pong+6 s), and a real-time slice that runs a scripted mailbox-level session (closes by either side, relay failures, Server.Close) and then takes the goroutine census of the process. Oracles: Close returns within finSendTimeout+2s of virtual time (it must not wait for resend or sync timers); later Send/Recv fail at once; FIN on the wire when the transport works; peer closes itself when the FIN is delivered; every blocked caller returns; the closed endpoint puts nothing but its FIN on the wire afterwards; no goroutine of gbn alive in the bubble afterwards. (S) self-close, virtual time: keepalive on one side only; a one-way outage (nothing reaches the keepalive side, what it sends arrives) or one transient write error or one transient read error (the sending direction works) makes the connection close itself while the peer is blocked in Recv: the peer's Recv must fail within 10 s (a FIN must have been sent over the working transport). The in-memory links refuse a write whose context is done, as the mailbox transports do. (M) mailbox client connections set up against a relay that refuses the receive stream, the send stream or both, cancelled through their context: the constructor returns within 20 s and nothing panics afterwards. On the blocking transport half of the client closes are followed 50-350 ms later by a second Close: when that returns a packet is put on the link and the connection's receive loop must not take it. Non-trivial = a Close was injected while the connection was open; distinct = (closer, transport condition, phase bucket, what the send loop was doing).",
+		Rule:  "each case draws a GBN scenario (random N, timeouts, keepalive, latency, mild faults, bidirectional traffic with idle gaps), runs it once to collect the virtual instants of its wire events (if that run's bubble freezes, the scenario is repeated on the real clock with a Close by both ends after the fault phase), then re-runs it K times injecting Close at one of those instants (-1ns/0/+1ns) or at a random instant, by client / server / both at the same instant / twice concurrently, with the transport working / blackholed / its send blocking until cancellation; plus handshake-phase cancellation cases, a real-time slice with a transport whose send blocks (until the context of the call ends or, with keepalive on, like a stream write of the mailbox transports, until the connection's context ends), a real-time slice that closes a mailbox-level connection whose transport write is blocked by backpressure (relay mailboxes of four messages, peer dead, either during an upload or right after the mailbox was filled exactly so that the FIN is the only blocked write; bound ping+pong+6 s), and a real-time slice that runs a scripted mailbox-level session (closes by either side, relay failures, Server.Close) and then takes the goroutine census of the process. Oracles: Close returns within finSendTimeout+2s of virtual time (it must not wait for resend or sync timers); later Send/Recv fail at once; FIN on the wire when the transport works; peer closes itself when the FIN is delivered; every blocked caller returns; the closed endpoint puts nothing but its FIN on the wire afterwards; no goroutine of gbn alive in the bubble afterwards. (S) self-close, virtual time: keepalive on one side only; a one-way outage (nothing reaches the keepalive side, what it sends arrives) or one transient write error or one transient read error (the sending direction works) makes the connection close itself while the peer is blocked in Recv: the peer's Recv must fail within 10 s (a FIN must have been sent over the working transport). The in-memory links refuse a write whose context is done, as the mailbox transports do. (M) mailbox client connections set up against a relay that refuses the receive stream, the send stream or both, cancelled through their context: the constructor returns within 20 s and nothing panics afterwards. On the blocking transport half of the client closes are followed 50-350 ms later by a second Close: when that returns a packet is put on the link and the connection's receive loop must not take it. Non-trivial = a Close was injected while the connection was open; distinct = (closer, transport condition, phase bucket, what the send loop was doing).",
 		Assumptions: []string{
 			"goroutine census covers goroutines, not bare time.Ticker objects without a goroutine",
 			"virtual time (synctest): bounds are exact, schedules sampled",
@@ -587,6 +587,15 @@ func runC12BlockSend(c *mon.Case) {
 		}
 	}()
 	time.Sleep(time.Duration(rng.Intn(30)) * time.Millisecond)
+	// With keepalive on, half of the cases block like a stream write of the
+	// mailbox transports does: the write ignores the context of the call (the
+	// FIN's one-second timeout) and ends only with the connection's context.
+	// Close is then bounded by the write watchdog (ping + pong time).
+	if conf.PingC != 0 && c.Idx/16%2 == 0 {
+		p.C2S.SetBlockConnScoped(true)
+		p.S2C.SetBlockConnScoped(true)
+		c.Shard.Count("blocking_transport_closes_conn_scoped", 1)
+	}
 	p.C2S.SetBlockSend(true)
 	p.S2C.SetBlockSend(true)
 	var wg sync.WaitGroup
@@ -722,33 +731,60 @@ func runC12MailboxBackpressure(c *mon.Case) {
 		}
 	}()
 	var inWrite atomic.Bool
-	go func() {
-		for i := 0; i < 4000; i++ {
+	// Every other case: no upload in progress. The peer dies, the party then
+	// writes just as many small messages as the peer's mailbox holds (every
+	// write is accepted) and closes at once - the FIN is the first write that
+	// the relay does not take, and the only one that is blocked.
+	fillThenClose := c.Idx/240%2 == 1
+	if fillThenClose {
+		dead.Store(true)
+		if serverDies {
+			relay.FreezeReads(c2s, true)
+		} else {
+			relay.FreezeReads(s2c, true)
+		}
+		time.Sleep(100 * time.Millisecond)
+		for i := 0; i < relay.Cap; i++ {
 			inWrite.Store(true)
-			_, err := up.Write(eng.StreamBytes('z', i*32768, 32768))
+			_, err := up.Write(eng.StreamBytes('z', i*100, 100))
 			inWrite.Store(false)
 			if err != nil {
-				return
+				break
 			}
 		}
-	}()
-	time.Sleep(time.Duration(500+rng.Intn(500)) * time.Millisecond)
-	dead.Store(true)
-	if serverDies {
-		relay.FreezeReads(c2s, true)
 	} else {
-		relay.FreezeReads(s2c, true)
+		go func() {
+			for i := 0; i < 4000; i++ {
+				inWrite.Store(true)
+				_, err := up.Write(eng.StreamBytes('z', i*32768, 32768))
+				inWrite.Store(false)
+				if err != nil {
+					return
+				}
+			}
+		}()
+		time.Sleep(time.Duration(500+rng.Intn(500)) * time.Millisecond)
+		dead.Store(true)
+		if serverDies {
+			relay.FreezeReads(c2s, true)
+		} else {
+			relay.FreezeReads(s2c, true)
+		}
+		time.Sleep(time.Duration(500+rng.Intn(1500)) * time.Millisecond)
 	}
-	time.Sleep(time.Duration(500+rng.Intn(1500)) * time.Millisecond)
 	who := map[bool]string{true: "client", false: "server"}[serverDies]
 	bound := 7*time.Second + 3*time.Second + 6*time.Second
-	rep := map[string]any{"kind": "mailbox-backpressure", "closer": who, "relay_capacity": relay.Cap, "bound": bound.String()}
+	rep := map[string]any{"kind": "mailbox-backpressure", "fill_then_close": fillThenClose, "closer": who, "relay_capacity": relay.Cap, "bound": bound.String()}
 	closed := make(chan struct{})
 	t0 := time.Now()
 	go func() { _ = up.Close(); close(closed) }()
 	select {
 	case <-closed:
-		c.Shard.Max("max_close_mailbox_backpressure_ms", time.Since(t0).Milliseconds())
+		if fillThenClose {
+			c.Shard.Max("max_close_mailbox_fill_then_close_ms", time.Since(t0).Milliseconds())
+		} else {
+			c.Shard.Max("max_close_mailbox_backpressure_ms", time.Since(t0).Milliseconds())
+		}
 	case <-time.After(bound):
 		c.Shard.Violate("close-hangs|mailbox-backpressure",
 			fmt.Sprintf("mailbox session over a relay that holds %d messages per mailbox, the %s uploading, its peer dead: Close of the %s's connection had not returned after %v", relay.Cap, who, who, bound), rep)
